@@ -27,6 +27,10 @@ pub fn run(name: &str, seed: u64, rest: &[String]) -> String {
         "dbc_strings" => dbc_strings(seed),
         "dbc_keys" => dbc_keys(seed),
         "dbc_writer" => dbc_writer(seed),
+        "blp_total" => blp_total(seed),
+        "blp_mips" => blp_mips(),
+        "blp_alpha" => blp_codec(seed, true),
+        "blp_header" => blp_codec(seed, false),
         "mod_full" => mod_full(),
         "build_lookup" => build_lookup(seed),
         _ => { let _ = rest; format!("{{\"oracle\":{},\"error\":\"unknown oracle\"}}", js(name)) }
@@ -576,4 +580,122 @@ fn dbc_writer(seed: u64) -> String {
         if got_block != want_block { return fail("dbc_writer", format!("strings {:?}", picks.iter().map(|p| pool[*p]).collect::<Vec<_>>()), format!("string block {} bytes", got_block), format!("{} bytes (each distinct string once)", want_block)); }
     }
     none("dbc_writer", tried)
+}
+
+fn blp_file(version: u8, content: u32, alpha: u32, w: u32, h: u32, mips: u32, offsets: [u32; 16], sizes: [u32; 16], tail: &[u8]) -> Vec<u8> {
+    let mut v = Vec::new();
+    v.extend_from_slice(match version { 0 => b"BLP0", 1 => b"BLP1", _ => b"BLP2" });
+    v.extend_from_slice(&content.to_le_bytes());
+    if version >= 2 { v.push(if content == 1 { 1 } else { 1 }); v.push(alpha as u8); v.push(0); v.push(mips as u8); }
+    else { v.extend_from_slice(&alpha.to_le_bytes()); }
+    v.extend_from_slice(&w.to_le_bytes());
+    v.extend_from_slice(&h.to_le_bytes());
+    if version < 2 { v.extend_from_slice(&5u32.to_le_bytes()); v.extend_from_slice(&mips.to_le_bytes()); }
+    if version >= 1 { for o in offsets { v.extend_from_slice(&o.to_le_bytes()); } for s in sizes { v.extend_from_slice(&s.to_le_bytes()); } }
+    v.extend_from_slice(tail);
+    v
+}
+
+/// crafted BLP headers (huge dimensions, locator entries at/over the end, overflowing offset+size): parse_blp never panics
+fn blp_total(seed: u64) -> String {
+    let mut rng = Rng(seed ^ 0xB1B0);
+    let dims: [u32; 10] = [0, 1, 2, 3, 255, 0x8000, 0xFFFF, 0x10000, 0x7FFFFFFF, 0xFFFFFFFF];
+    let mut tried = 0;
+    let mut cases: Vec<(String, Vec<u8>)> = Vec::new();
+    for ver in [1u8, 2, 0] { for &w in &dims { for &h in &dims { for alpha in [0u32, 1, 4, 8] { for mips in [0u32, 1] {
+        let mut offs = [0u32; 16]; let mut sizes = [0u32; 16];
+        let hdr_len = if ver == 2 { 20 + 128 } else if ver == 1 { 28 + 128 } else { 28 };
+        offs[0] = (hdr_len + 1024) as u32; sizes[0] = 64;
+        let mut tail = vec![0u8; 1024 + 64];
+        for b in tail.iter_mut() { *b = (rng.next() >> 9) as u8; }
+        cases.push((format!("BLP{} direct {}x{} alpha {} mips {}", ver, w, h, alpha, mips), blp_file(ver, 1, alpha, w, h, mips, offs, sizes, &tail)));
+    }}}}}
+    for (off, size) in [(0xFFFFFFF0u32, 0x20u32), (0xFFFFFFFF, 1), (200, 0xFFFFFFFF), (1180, 1), (1244, 0), (1243, 1), (1243, 2)] {
+        let mut offs = [0u32; 16]; let mut sizes = [0u32; 16]; offs[0] = off; sizes[0] = size;
+        cases.push((format!("BLP1 direct 2x2, locator offset {:#x} size {:#x}", off, size), blp_file(1, 1, 0, 2, 2, 0, offs, sizes, &vec![7u8; 1024 + 64])));
+        cases.push((format!("BLP2 direct 2x2, locator offset {:#x} size {:#x}", off, size), blp_file(2, 1, 0, 2, 2, 0, offs, sizes, &vec![7u8; 1024 + 64])));
+    }
+    for (name, bytes) in cases {
+        tried += 1;
+        let b2 = bytes.clone();
+        if let Err(p) = catch(move || wow_blp::parser::parse_blp(&b2).is_ok()) {
+            return fail("blp_total", format!("{} ({} bytes)", name, bytes.len()), format!("panic: {}", p), "Ok or Err".into());
+        }
+    }
+    none("blp_total", tried)
+}
+
+/// mip chain arithmetic for every dimension up to 4096 and selected large ones (native, includes mipmaps_count through f32::log2)
+fn blp_mips() -> String {
+    use wow_blp::types::*;
+    let mut tried = 0;
+    let mut dims: Vec<u32> = (1..=4096).collect(); dims.extend([5000, 8191, 8192, 65535, 65536]);
+    for &w in &dims { for &h in [1u32, 2, 3, 6, 7, 8, 255, 256, 257, 4096].iter() {
+        tried += 1;
+        let hd = BlpHeader { version: BlpVersion::Blp1, content: BlpContentTag::Direct, flags: BlpFlags::Old { alpha_bits: 0, extra: 0, has_mipmaps: 1 }, width: w, height: h, mipmap_locator: MipmapLocator::Internal { offsets: [0; 16], sizes: [0; 16] } };
+        let n = hd.mipmaps_count();
+        let m = w.max(h);
+        if n as u32 != 31 - m.leading_zeros() { return fail("blp_mips", format!("mipmaps_count for {}x{}", w, h), format!("{}", n), format!("{}", 31 - m.leading_zeros())); }
+        for i in 0..=n {
+            let want = if i == 0 { (w, h) } else { ((w >> i).max(1), (h >> i).max(1)) };
+            let got = hd.mipmap_size(i);
+            if got != want { return fail("blp_mips", format!("mipmap_size({}) for {}x{}", i, w, h), format!("{:?}", got), format!("{:?} (each level halves, rounding down, min 1)", want)); }
+        }
+        if hd.mipmap_size(n) != (1, 1) { return fail("blp_mips", format!("last level of {}x{}", w, h), format!("{:?}", hd.mipmap_size(n)), "(1, 1)".into()); }
+    }}
+    none("blp_mips", tried)
+}
+
+/// image -> BLP (raw1 / raw3, every alpha depth, odd sizes, mipmaps) -> encode -> parse: identical structure;
+/// decoded alpha equals the source alpha quantised to the declared depth
+fn blp_codec(seed: u64, alpha_focus: bool) -> String {
+    use wow_blp::convert::{image_to_blp, blp_to_image, BlpTarget, BlpOldFormat, Blp2Format, AlphaBits, FilterType};
+    use wow_blp::encode::encode_blp;
+    use wow_blp::parser::parse_blp;
+    let mut rng = Rng(seed ^ 0xA1FA);
+    let mut tried = 0;
+    let sizes: [(u32, u32); 12] = [(1, 1), (3, 3), (5, 3), (1, 7), (2, 2), (8, 2), (4, 4), (6, 6), (7, 9), (16, 4), (9, 1), (13, 2)];
+    for &(w, h) in &sizes { for mips in [false, true] { for ab in [AlphaBits::NoAlpha, AlphaBits::Bit1, AlphaBits::Bit4, AlphaBits::Bit8] {
+        let targets = vec![
+            ("BLP1 raw1", BlpTarget::Blp1(BlpOldFormat::Raw1 { alpha_bits: ab })),
+            ("BLP2 raw1", BlpTarget::Blp2(Blp2Format::Raw1 { alpha_bits: ab })),
+            ("BLP2 raw3", BlpTarget::Blp2(Blp2Format::Raw3)),
+        ];
+        for (tname, target) in targets {
+            if !alpha_focus && tname == "BLP2 raw3" && ab != AlphaBits::Bit8 { continue; }
+            let mut img = image::RgbaImage::new(w, h);
+            for p in img.pixels_mut() { let c = (rng.next() % 4) as u8 * 60; *p = image::Rgba([c, c / 2, 255 - c, [0u8, 255, 17, 128, 200, 1][(rng.next() % 6) as usize]]); }
+            let src = img.clone();
+            let desc = format!("{} {}x{} alpha {} mipmaps {}", tname, w, h, ab, mips);
+            tried += 1;
+            let r = catch(move || -> Result<(), String> {
+                let blp = image_to_blp(image::DynamicImage::ImageRgba8(img), mips, target, FilterType::Nearest).map_err(|e| format!("image_to_blp: {}", e))?;
+                let bytes = encode_blp(&blp).map_err(|e| format!("encode_blp: {}", e))?;
+                let back = parse_blp(&bytes).map_err(|e| format!("parse of the encoded bytes failed: {}", e))?;
+                if back != blp { return Err(format!("parsed structure differs from the encoded one (header {:?} vs {:?})", back.header, blp.header)); }
+                let dec = blp_to_image(&back, 0).map_err(|e| format!("blp_to_image: {}", e))?.to_rgba8();
+                if dec.dimensions() != (w, h) { return Err(format!("decoded size {:?}", dec.dimensions())); }
+                for (x, y, p) in dec.enumerate_pixels() {
+                    let a = src.get_pixel(x, y)[3];
+                    let want = match (tname, ab) {
+                        ("BLP2 raw3", _) => a,
+                        (_, AlphaBits::NoAlpha) => 255,
+                        (_, AlphaBits::Bit1) => if a > 0 { 255 } else { 0 },
+                        (_, AlphaBits::Bit4) => { let q = ((a as f64 / 255.0) * 15.0).round() as u32; ((q as f64 / 15.0) * 255.0).round() as u8 },
+                        (_, AlphaBits::Bit8) => a,
+                    };
+                    let got = p[3];
+                    let ok = if matches!(ab, AlphaBits::Bit4) && tname != "BLP2 raw3" { (got as i32 - want as i32).abs() <= 1 } else { got == want };
+                    if !ok { return Err(format!("pixel ({},{}) alpha {} decoded as {}, expected {}", x, y, a, got, want)); }
+                }
+                Ok(())
+            });
+            match r {
+                Err(p) => return fail(if alpha_focus { "blp_alpha" } else { "blp_header" }, desc, format!("panic: {}", p), "round trip".into()),
+                Ok(Err(e)) => return fail(if alpha_focus { "blp_alpha" } else { "blp_header" }, desc, e, "encode -> parse identical, alpha quantised to the declared depth".into()),
+                Ok(Ok(())) => {}
+            }
+        }
+    }}}
+    none(if alpha_focus { "blp_alpha" } else { "blp_header" }, tried)
 }
